@@ -37,11 +37,17 @@ MaxKeyBytes      == Num("MAXKEY")
 MaxValBytes      == Num("MAXVAL")
 MaxTotalEnvBytes == Num("MAXTOTALENV")
 MaxStdinBytes    == Num("MAXSTDIN")
-MaxTimeout       == Num("MAXTIMEOUT")      \* in model time units; the default timeout is 1 unit
+MaxTimeout       == Num("MAXTIMEOUT")      \* in model time units
+DefTimeout       == Num("DEFTIMEOUT")      \* the default timeout, same units
+\* MODE = "enum": enumerate every call order over the small token table below.
+\* MODE = "cases": evaluate given call sequences (IOEnv.CASES, ndjson {"prog","tok":{id:{len,nul,eq}},"calls":[..]});
+\*   used for the REAL default limits, one boundary at a time, with tokens of real sizes.
+Scripted == IOEnv.MODE = "cases"
+Cases == ndJsonDeserialize(IOEnv.CASES)
 
 (* ---------------- tokens ---------------- *)
 \* id |-> [len, nul, eq]; two tokens with different ids are different strings
-Tok == [e0 |-> [len |-> 0, nul |-> FALSE, eq |-> FALSE],
+Tok0 == [e0 |-> [len |-> 0, nul |-> FALSE, eq |-> FALSE],
         a1 |-> [len |-> 1, nul |-> FALSE, eq |-> FALSE],
         b1 |-> [len |-> 1, nul |-> FALSE, eq |-> FALSE],
         a2 |-> [len |-> 2, nul |-> FALSE, eq |-> FALSE],
@@ -49,7 +55,6 @@ Tok == [e0 |-> [len |-> 0, nul |-> FALSE, eq |-> FALSE],
         a4 |-> [len |-> 4, nul |-> FALSE, eq |-> FALSE],
         n2 |-> [len |-> 2, nul |-> TRUE,  eq |-> FALSE],
         q2 |-> [len |-> 2, nul |-> FALSE, eq |-> TRUE]]
-Len_(t) == Tok[t].len
 \* timeouts as tokens too: value in model units
 TimeoutVal == [t0 |-> 0, t1 |-> 1, tM |-> MaxTimeout, tX |-> MaxTimeout + 1]
 
@@ -64,8 +69,11 @@ EnvChoices  == (GoodKeys \X GoodVals)
                      ELSE {<<"a2", "a3">>, <<"a3", "a1">>})
 TimeoutToks == {"t0", "t1", "tM", "tX"}
 Policies    == {"capture", "inherit", "null"}
+SoName == [capture |-> "stdout_capture", inherit |-> "stdout_inherit", null |-> "stdout_null"]
+SeName == [capture |-> "stderr_capture", inherit |-> "stderr_inherit", null |-> "stderr_null"]
 
-VARIABLES calls,      \* history: sequence of <<method, token...>>
+VARIABLES cs,         \* 0, or the index of the given case (MODE = "cases")
+          calls,      \* history: sequence of <<method, token...>>
           prog,       \* program token (call index 0)
           args,       \* sequence of <<token, call index>>
           envOrder,   \* keys in order of first write
@@ -74,17 +82,25 @@ VARIABLES calls,      \* history: sequence of <<method, token...>>
           stdin,      \* <<"inherit">> | <<"null">> | <<"text", token, call index>>
           so, se,     \* stdout / stderr policy
           timeout,    \* "-" (default) or a timeout token
-          outcome     \* <<>> until Run
-vars == <<calls, prog, args, envOrder, envVal, cwd, stdin, so, se, timeout, outcome>>
+          outcome     \* None until Run
+vars == <<cs, calls, prog, args, envOrder, envVal, cwd, stdin, so, se, timeout, outcome>>
+None == [k |-> "none"]
+Tok == IF cs = 0 THEN Tok0 ELSE Cases[cs].tok
+Len_(t) == Tok[t].len
 
-Init == /\ prog \in ProgToks
+Init == /\ IF Scripted THEN cs \in 1..Len(Cases) /\ prog = Cases[cs].prog
+           ELSE cs = 0 /\ prog \in ProgToks
         /\ calls = <<>> /\ args = <<>> /\ envOrder = <<>> /\ envVal = [k \in {} |-> <<>>]
         /\ cwd = <<>> /\ stdin = <<"inherit">> /\ so = "inherit" /\ se = "inherit" /\ timeout = "-"
-        /\ outcome = <<>>
+        /\ outcome = None
 
-Open == outcome = <<>> /\ Len(calls) < MaxCalls
+\* a command whose program is already invalid gets at most one more builder call (every Run is refused anyway)
+ProgOk == Len_(prog) > 0 /\ ~Tok[prog].nul /\ Len_(prog) <= MaxProgramBytes
+Open == outcome = None /\ Len(calls) < (IF cs > 0 THEN Len(Cases[cs].calls) ELSE IF ProgOk THEN MaxCalls ELSE 1)
+Full == Profile = "full" \/ cs > 0
 Here == Len(calls) + 1
-Log(c) == calls' = Append(calls, c)
+Log(c) == /\ cs > 0 => c = Cases[cs].calls[Here]
+          /\ calls' = Append(calls, c) /\ cs' = cs
 
 Arg(t) == /\ Open /\ Log(<<"arg", t>>) /\ args' = Append(args, <<t, Here>>)
           /\ UNCHANGED <<prog, envOrder, envVal, cwd, stdin, so, se, timeout, outcome>>
@@ -93,27 +109,32 @@ Env(k, v) == /\ Open /\ Log(<<"env", k, v>>)
              /\ envVal' = [x \in DOMAIN envVal \cup {k} |-> IF x = k THEN <<v, Here>> ELSE envVal[x]]
              /\ envOrder' = IF k \in DOMAIN envVal THEN envOrder ELSE Append(envOrder, k)
              /\ UNCHANGED <<prog, args, cwd, stdin, so, se, timeout, outcome>>
-Cwd(t) == /\ Open /\ Log(<<"cwd", t>>) /\ cwd' = <<t, Here>>
+Cwd(t) == /\ Full /\ Open /\ Log(<<"cwd", t>>) /\ cwd' = <<t, Here>>
           /\ UNCHANGED <<prog, args, envOrder, envVal, stdin, so, se, timeout, outcome>>
-StdinText(t) == /\ Open /\ Log(<<"stdin_text", t>>) /\ stdin' = <<"text", t, Here>>
+StdinText(t) == /\ Full /\ Open /\ Log(<<"stdin_text", t>>) /\ stdin' = <<"text", t, Here>>
                 /\ UNCHANGED <<prog, args, envOrder, envVal, cwd, so, se, timeout, outcome>>
-StdinInherit == /\ Open /\ Log(<<"stdin_inherit">>) /\ stdin' = <<"inherit">>
+StdinInherit == /\ Full /\ Open /\ Log(<<"stdin_inherit">>) /\ stdin' = <<"inherit">>
                 /\ UNCHANGED <<prog, args, envOrder, envVal, cwd, so, se, timeout, outcome>>
-StdinNull == /\ Open /\ Log(<<"stdin_null">>) /\ stdin' = <<"null">>
+StdinNull == /\ Full /\ Open /\ Log(<<"stdin_null">>) /\ stdin' = <<"null">>
              /\ UNCHANGED <<prog, args, envOrder, envVal, cwd, so, se, timeout, outcome>>
-Stdout(p) == /\ Open /\ Log(<<"stdout_" \o p>>) /\ so' = p
+Stdout(p) == /\ Full /\ Open /\ Log(<<SoName[p]>>) /\ so' = p
              /\ UNCHANGED <<prog, args, envOrder, envVal, cwd, stdin, se, timeout, outcome>>
-Stderr(p) == /\ Open /\ Log(<<"stderr_" \o p>>) /\ se' = p
+Stderr(p) == /\ Full /\ Open /\ Log(<<SeName[p]>>) /\ se' = p
              /\ UNCHANGED <<prog, args, envOrder, envVal, cwd, stdin, so, timeout, outcome>>
-TimeoutMs(t) == /\ Open /\ Log(<<"timeout_ms", t>>) /\ timeout' = t
-                /\ UNCHANGED <<prog, args, envOrder, envVal, cwd, stdin, so, se, outcome>>
+\* A timeout that no limit setting could make valid (zero) may be refused by the call itself: the
+\* script ends there with the configuration error (the property only demands refusal before a spawn).
+TimeoutMs(t) == /\ Full /\ Open /\ Log(<<"timeout_ms", t>>)
+                /\ IF TimeoutVal[t] = 0
+                   THEN outcome' = [k |-> "refuse", why |-> {"timeout"}] /\ UNCHANGED timeout
+                   ELSE timeout' = t /\ UNCHANGED outcome
+                /\ UNCHANGED <<prog, args, envOrder, envVal, cwd, stdin, so, se>>
 
 (* ---------------- validation: which rules does the builder state break? ---------------- *)
 RECURSIVE SumArgs(_)
 SumArgs(i) == IF i = 0 THEN 0 ELSE Len_(args[i][1]) + SumArgs(i - 1)
 RECURSIVE SumEnv(_)
 SumEnv(i) == IF i = 0 THEN 0 ELSE Len_(envOrder[i]) + Len_(envVal[envOrder[i]][1]) + SumEnv(i - 1)
-EffTimeout == IF timeout = "-" THEN 1 ELSE TimeoutVal[timeout]
+EffTimeout == IF timeout = "-" THEN DefTimeout ELSE TimeoutVal[timeout]
 
 Broken ==
      (IF Len_(prog) = 0 \/ Tok[prog].nul \/ Len_(prog) > MaxProgramBytes THEN {"program"} ELSE {})
@@ -130,36 +151,44 @@ Broken ==
   \cup (IF stdin[1] = "text" /\ (Tok[stdin[2]].nul \/ Len_(stdin[2]) > MaxStdinBytes) THEN {"stdin"} ELSE {})
   \cup (IF EffTimeout = 0 \/ EffTimeout > MaxTimeout THEN {"timeout"} ELSE {})
 
-Run == /\ outcome = <<>>
+Run == /\ outcome = None /\ (cs > 0 => Len(calls) = Len(Cases[cs].calls))
        /\ outcome' = IF ~AllowProcess THEN [k |-> "denied"]
                      ELSE IF Broken # {} THEN [k |-> "refuse", why |-> Broken]
                      ELSE [k |-> "spawn", argv |-> <<<<prog, 0>>>> \o args,
                            env |-> [i \in 1..Len(envOrder) |-> <<envOrder[i], envVal[envOrder[i]][1], envVal[envOrder[i]][2]>>],
                            cwd |-> cwd, stdin |-> stdin, so |-> so, se |-> se, timeout |-> timeout]
-       /\ UNCHANGED <<calls, prog, args, envOrder, envVal, cwd, stdin, so, se, timeout>>
+       /\ UNCHANGED <<cs, calls, prog, args, envOrder, envVal, cwd, stdin, so, se, timeout>>
 
+Given == DOMAIN Cases[cs].tok
+\* MODE = "cases": the next call of the given sequence, with the case's own tokens
+ScriptStep == /\ cs > 0
+              /\ \/ \E t \in Given : Arg(t) \/ Cwd(t) \/ StdinText(t)
+                 \/ \E k \in Given, v \in Given : Env(k, v)
 Next == \/ \E t \in ArgToks : Arg(t)
         \/ \E c \in EnvChoices : Env(c[1], c[2])
+        \/ \E t \in CwdToks : Cwd(t)
+        \/ \E t \in StdinToks : StdinText(t)
+        \/ StdinInherit
+        \/ StdinNull
+        \/ \E p \in Policies : Stdout(p)
+        \/ \E p \in Policies : Stderr(p)
+        \/ \E t \in TimeoutToks : TimeoutMs(t)
+        \/ ScriptStep
         \/ Run
-        \/ /\ Profile = "full"
-           /\ \/ \E t \in CwdToks : Cwd(t)
-              \/ \E t \in StdinToks : StdinText(t)
-              \/ StdinInherit \/ StdinNull
-              \/ \E p \in Policies : Stdout(p) \/ Stderr(p)
-              \/ \E t \in TimeoutToks : TimeoutMs(t)
 Spec == Init /\ [][Next]_vars
 
 (* ---------------- what the property states ---------------- *)
 \* a spawn happens only for a permitted, valid command (refusal comes BEFORE any spawn) ...
-SpawnOnlyIfValid == (outcome # <<>> /\ outcome.k = "spawn") => (AllowProcess /\ Broken = {})
+SpawnOnlyIfValid == (outcome.k = "spawn") => (AllowProcess /\ Broken = {})
 \* ... a valid permitted command is not refused ...
-RefuseOnlyIfBroken == (outcome # <<>> /\ outcome.k = "refuse") => Broken # {}
-DeniedIffForbidden == outcome # <<>> => ((outcome.k = "denied") <=> ~AllowProcess)
+EagerRefusal == calls # <<>> /\ calls[Len(calls)][1] = "timeout_ms" /\ TimeoutVal[calls[Len(calls)][2]] = 0
+RefuseOnlyIfBroken == (outcome.k = "refuse") => (Broken # {} \/ EagerRefusal)
+DeniedIffForbidden == outcome # None => ((outcome.k = "denied") <=> (~AllowProcess /\ ~EagerRefusal))
 \* ... and a spawn carries exactly the builder state: all arguments in call order, the last value of every key
 LastWrite(k) == LET I == {i \in 1..Len(calls) : calls[i][1] = "env" /\ calls[i][2] = k} IN
                 CHOOSE i \in I : \A j \in I : j <= i
 SpawnCarriesState ==
-  (outcome # <<>> /\ outcome.k = "spawn") =>
+  (outcome.k = "spawn") =>
      /\ outcome.argv = <<<<prog, 0>>>> \o [i \in 1..Len(args) |-> args[i]]
      /\ Len(outcome.argv) = 1 + Cardinality({i \in 1..Len(calls) : calls[i][1] = "arg"})
      /\ \A i \in 1..Len(args) : calls[args[i][2]] = <<"arg", args[i][1]>> /\ (i > 1 => args[i - 1][2] < args[i][2])
@@ -167,7 +196,7 @@ SpawnCarriesState ==
      /\ \A i \in 1..Len(outcome.env) : LET e == outcome.env[i] IN e[3] = LastWrite(e[1]) /\ calls[e[3]] = <<"env", e[1], e[2]>>
      /\ Cardinality({outcome.env[i][1] : i \in 1..Len(outcome.env)}) = Len(outcome.env)
 
-Emit == outcome # <<>> => PrintT(ToJson([calls |-> calls, prog |-> prog, out |-> outcome]))
-Header == (calls = <<>> /\ outcome = <<>> /\ prog = "a2") =>
-            PrintT(ToJson([header |-> TRUE, tok |-> Tok, timeouts |-> TimeoutVal]))
+Emit == outcome # None => PrintT(ToJson([cs |-> cs, calls |-> calls, prog |-> prog, out |-> outcome]))
+Header == (cs = 0 /\ calls = <<>> /\ outcome = None /\ prog = "a2") =>
+            PrintT(ToJson([header |-> TRUE, tok |-> Tok0, timeouts |-> TimeoutVal]))
 =============================================================================
